@@ -33,6 +33,13 @@ func FV(s string, xs ...int) int { return -7 }
 //go:noinline
 func FVI(a int, xs ...interface{}) (int, error) { return -8, nil }
 
+type P2 struct{ X, Y int }
+type p1 struct{ X int }
+type p3 struct{ X, Y, Z int }
+
+//go:noinline
+func F5(p P2, n int) (P2, int) { return P2{-9, -9}, -9 }
+
 type T struct{ v int }
 
 //go:noinline
@@ -182,6 +189,9 @@ func TestC13(t *testing.T) {
 		{name: "FVI", fn: FVI, handle: func(b *mocker.Builder) mocker.ExportedMocker { return b.Func(FVI) }, cbType: reflect.TypeOf(FVI),
 			state:   func() string { return fp(func() interface{} { a, e := FVI(1, "x", 2); return fmt.Sprint(a, e) }) },
 			prepare: func(b *mocker.Builder) { b.Func(FVI).Return(55, nil) }},
+		{name: "F5", fn: F5, handle: func(b *mocker.Builder) mocker.ExportedMocker { return b.Func(F5) }, cbType: reflect.TypeOf(F5),
+			state:   func() string { return fp(func() interface{} { a, n := F5(P2{1, 2}, 3); return fmt.Sprint(a, n) }) },
+			prepare: func(b *mocker.Builder) { b.Func(F5).Return(P2{55, 55}, 55) }},
 		{name: "T.M", fn: (*T).M, handle: func(b *mocker.Builder) mocker.ExportedMocker { return b.Struct(&T{}).Method("M") }, cbType: reflect.TypeOf((*T).M),
 			state: func() string { return fp(func() interface{} { return (&T{}).M(1, "s") }) }, prepare: func(b *mocker.Builder) { b.Struct(&T{}).Method("M").Return(55) }},
 		{name: "foo", fn: foo, handle: func(b *mocker.Builder) mocker.ExportedMocker {
@@ -267,6 +277,41 @@ func TestC13(t *testing.T) {
 				tg.handle(b).Return(vs...)
 			}})
 		}
+		// struct results / struct condition arguments: a struct of ANOTHER type that is smaller or larger
+		for i := range outs {
+			i := i
+			if outs[i].Kind() != reflect.Struct {
+				continue
+			}
+			for _, bad := range []interface{}{p1{1}, p3{1, 2, 3}} {
+				bad := bad
+				ms = append(ms, mistake{"return-value-size", fmt.Sprintf("position %d: %T (%d bytes) for %s (%d bytes)", i, bad, reflect.TypeOf(bad).Size(), outs[i], outs[i].Size()), func(b *mocker.Builder) {
+					vs := make([]interface{}, len(outs))
+					for j := range vs {
+						vs[j] = goodValue(outs[j])
+					}
+					vs[i] = bad
+					tg.handle(b).Return(vs...)
+				}})
+			}
+		}
+		for i := skip; i < len(ins); i++ {
+			i := i
+			if ins[i].Kind() != reflect.Struct || tg.cbType.IsVariadic() {
+				continue
+			}
+			for _, bad := range []interface{}{p1{1}, p3{1, 2, 3}} {
+				bad := bad
+				ms = append(ms, mistake{"when-argument-size", fmt.Sprintf("argument %d: %T for %s", i-skip, bad, ins[i]), func(b *mocker.Builder) {
+					as := make([]interface{}, len(ins)-skip)
+					for j := range as {
+						as[j] = goodValue(ins[skip+j])
+					}
+					as[i-skip] = bad
+					tg.handle(b).When(as...)
+				}})
+			}
+		}
 		// Returns(...): a sequence whose k-th element does not fit (validated element by element)
 		for i := range outs {
 			i := i
@@ -343,7 +388,7 @@ func TestC13(t *testing.T) {
 					defer func() { done <- recover() }()
 					b1 := mocker.Create()
 					tg.prepare(b1)
-					if s := tg.state(); !strings.HasPrefix(s, "55") {
+					if s := tg.state(); !strings.Contains(s, "55") {
 						panic(fmt.Sprintf("correct configuration after the rejected call yields %q", s))
 					}
 					b1.Reset()
